@@ -143,6 +143,44 @@ Proof.
   unfold pk_of. cbn [t_constraints]. now rewrite (find_app_notpk _ k Hpk).
 Qed.
 
+Lemma first_missing_has_col' T l : forallb (fun x => has_col x T) l = true -> first_missing l T = None.
+Proof.
+  unfold first_missing. induction l as [|x r IH]; intro H; [reflexivity|].
+  cbn [forallb] in H. apply andb_prop in H. destruct H as [Hx Hr]. cbn [find]. rewrite Hx. cbn [negb]. now apply IH.
+Qed.
+
+Lemma first_pk_only_nopk : forall ks b, filter is_pk ks = [] -> first_pk_only b ks = ks.
+Proof.
+  induction ks as [|k r IH]; intros b H; [reflexivity|]. cbn [filter] in H.
+  destruct k; cbn [is_pk] in H; try discriminate; cbn [first_pk_only]; now rewrite IH.
+Qed.
+Lemma filter_pk_app ks k : filter is_pk ks = [] -> is_pk k = false -> filter is_pk (ks ++ [k]) = [].
+Proof. intros H Hk. rewrite filter_app, H. cbn [filter app]. now rewrite Hk. Qed.
+Lemma find_pk_last ks a cols : filter is_pk ks = [] -> find is_pk (ks ++ [CPrimaryKey a cols]) = Some (CPrimaryKey a cols).
+Proof.
+  induction ks as [|k r IH]; intro H; [reflexivity|]. cbn [filter] in H. cbn [app find].
+  destruct (is_pk k); [discriminate|now apply IH].
+Qed.
+Lemma find_pk_nil ks : filter is_pk ks = [] -> find is_pk ks = None.
+Proof.
+  induction ks as [|k r IH]; intro H; [reflexivity|]. cbn [filter find] in *.
+  destruct (is_pk k); [discriminate|now apply IH].
+Qed.
+
+Lemma has_pk_table_cat t : filter is_pk (t_constraints t) = [] -> has_pk (table_cat t) = false.
+Proof.
+  intro H. unfold has_pk, table_cat. cbn [pt_cons].
+  destruct (existsb _ _) eqn:E; [|reflexivity]. exfalso.
+  apply existsb_exists in E. destruct E as ([n k] & Hin & Hk). cbn [snd] in Hk.
+  apply bt_of_list_in in Hin. rewrite (first_pk_only_nopk _ false H) in Hin.
+  apply in_flat_map in Hin. destruct Hin as (x & Hx & Hc).
+  destruct x as [a pc|un uc|fn fc rt rc od ou|cn ce|inn ic]; cbn [con_cat] in Hc;
+    try (destruct Hc; fail);
+    try (destruct Hc as [Hc|[]]; injection Hc as _ <-; discriminate Hk).
+  assert (Hpkin : In (CPrimaryKey a pc) (filter is_pk (t_constraints t))) by (apply filter_In; split; [exact Hx|reflexivity]).
+  rewrite H in Hpkin. destruct Hpkin.
+Qed.
+
 Lemma sim_pg_add_constraint s tn k :
   hyp_add_constraint s tn k = true -> step_sim s (AddConstraint tn k).
 Proof.
@@ -157,7 +195,31 @@ Proof.
                 = @Ok table_def planner_error t').
   { cbv beta. now rewrite Hnc. }
   destruct (update_table_spec tn _ s t t' Hnd Hf Hft eq_refl eq_refl) as (s' & Hup & Hc & _).
-  destruct k as [auto cols|n cols|n cols rt rcols od ou|n e|n cols]; try discriminate.
+  destruct k as [auto cols|n cols|n cols rt rcols od ou|n e|n cols].
+  - (* PrimaryKey: ALTER TABLE .. ADD PRIMARY KEY *)
+    repeat (apply andb_prop in H; destruct H as [H ?]).
+    rename H into Hauto, H0 into Hfree, H1 into Hcols, H2 into Hnopk.
+    apply negb_true_iff in Hauto, Hfree. subst auto.
+    destruct (filter is_pk (t_constraints t)) eqn:Efp; [|discriminate]. clear Hnopk.
+    eexists. split; [reflexivity|].
+    rewrite (step_schema_ok s _ s') by exact Hup.
+    cbn [gen_add_constraint exec_all exec]. rewrite find_table_catalog_of, Hf. cbn [option_map exec_alter_ops].
+    unfold exec_alter_op. rewrite find_table_catalog_of, Hf. cbn [option_map]. unfold add_pk.
+    rewrite find_table_catalog_of, Hf. cbn [option_map].
+    rewrite (has_pk_table_cat t Efp), (first_missing_none _ _ Hcols).
+    unfold pkey_name. rewrite pt_name_table_cat, Hname. cbn [choose_name]. rewrite Hfree.
+    rewrite Hc. f_equal. f_equal. f_equal.
+    unfold table_cat, t', with_idx, with_con, set_notnull_cols.
+    cbn [t_name t_columns t_constraints pt_name pt_cols pt_cons pt_idx].
+    rewrite (first_pk_only_nopk _ false Efp).
+    assert (Hfpo : first_pk_only false (t_constraints t ++ [CPrimaryKey false cols]) = t_constraints t ++ [CPrimaryKey false cols]).
+    { clear -Efp. induction (t_constraints t) as [|k r IH]; [reflexivity|]. cbn [filter] in Efp.
+      destruct k; cbn [is_pk] in Efp; try discriminate; cbn [app first_pk_only]; now rewrite IH. }
+    rewrite Hfpo, !flat_map_app. cbn [flat_map con_cat idx_cat app]. rewrite Hname, !bt_of_list_snoc. f_equal.
+    rewrite map_map. apply map_ext. intro x. unfold col_cat. cbn [pc_name t_name t_constraints].
+    unfold pk_of. cbn [t_constraints]. rewrite (find_pk_last _ false cols Efp), (find_pk_nil _ Efp).
+    cbn [pc_type pc_default pc_autoinc pc_notnull].
+    rewrite ?Hname. destruct (mem_str (c_name x) cols); [now rewrite orb_true_r|now rewrite !orb_false_r].
   - (* Unique *)
     apply andb_prop in H. destruct H as [Hcols Hfree]. apply negb_true_iff in Hfree.
     eexists. split; [reflexivity|].
@@ -166,6 +228,23 @@ Proof.
     rewrite Hfree, (first_missing_none _ _ Hcols). rewrite Hc. unfold t'.
     rewrite (table_cat_add_index t _ (build_unique_constraint_name tn cols n) (mkPi cols true false));
       [reflexivity|reflexivity|reflexivity|cbn [idx_cat]; now rewrite Hname].
+  - (* ForeignKey: ALTER TABLE .. ADD CONSTRAINT .. FOREIGN KEY *)
+    repeat (apply andb_prop in H; destruct H as [H ?]).
+    rename H into Hcols, H0 into Htgt, H1 into Hfree, H2 into Har.
+    apply negb_true_iff in Hfree.
+    destruct (find_table rt (catalog_of s)) as [RT|] eqn:HRT; [|discriminate].
+    apply andb_prop in Htgt. destruct Htgt as [Hrc Hu].
+    eexists. split; [reflexivity|].
+    rewrite (step_schema_ok s _ s') by exact Hup.
+    cbn [gen_add_constraint exec_all exec]. rewrite (find_table_catalog_of tn), Hf. cbn [option_map exec_alter_ops].
+    unfold exec_alter_op. rewrite (find_table_catalog_of tn), Hf. cbn [option_map]. unfold add_fk.
+    cbn [fk_name fk_cols fk_rtable fk_rcols fk_on_delete fk_on_update].
+    rewrite (find_table_catalog_of tn), Hf. cbn [option_map].
+    rewrite (first_missing_none _ _ Hcols), HRT, (first_missing_has_col' RT rcols Hrc), Har. cbn [negb].
+    destruct (unique_indexes_on RT rcols); [discriminate|]. rewrite Hfree.
+    rewrite Hc. unfold t'.
+    rewrite (table_cat_add_con t _ (build_foreign_key_name tn cols n) (KFk cols rt rcols (norm_act od) (norm_act ou)));
+      [reflexivity|reflexivity|cbn [con_cat]; now rewrite Hname|reflexivity].
   - (* Check *)
     apply negb_true_iff in H.
     eexists. split; [reflexivity|].
@@ -553,6 +632,29 @@ Proof.
     apply existsb_exists in Hin. destruct Hin as (x & Hx & E). unfold constraint_eqb, dec_b in E.
     destruct (constraint_eq_dec k x); [now subst|discriminate]. }
   destruct k as [a pc|un uc|fn fc rt rc od ou|cn ce|inn ic]; try discriminate.
+  - (* Unique: DROP INDEX *)
+    apply andb_prop in Hk. destruct Hk as [Hk Hneed].
+    destruct (find (fun T => bt_mem n (pt_idx T)) (c_tables (catalog_of s))) as [T|] eqn:HT; [|discriminate].
+    apply String.eqb_eq in Hk.
+    assert (T = table_cat t).
+    { apply find_some in HT. destruct HT as [HTin _]. now apply (in_table_cat_unique tn s t T Hnd Hf HTin Hk). }
+    subst T.
+    eexists. split; [reflexivity|].
+    rewrite (step_schema_ok s _ s') by exact Hup.
+    cbn [gen_remove_constraint exec_all exec]. change (build_unique_constraint_name tn uc un) with n. rewrite HT.
+    assert (Hget : bt_get n (pt_idx (table_cat t)) = Some (mkPi uc true false)).
+    { unfold table_cat. cbn [pt_idx]. rewrite bt_get_of_list. apply bt_get_all_same.
+      - intros kv Hkv Hfst. apply in_rev in Hkv. apply in_flat_map in Hkv. destruct Hkv as (x & Hx & Hkv).
+        assert (keep x = false).
+        { rewrite <- (Hkey x Hx (fst kv)); [rewrite Hfst, String.eqb_refl; reflexivity|now apply (Hsub_idx x Hx)]. }
+        unfold keep in H. apply negb_false_iff, constraint_eqb_true in H. subst x.
+        cbn [idx_cat] in Hkv. destruct Hkv as [<-|[]]. reflexivity.
+      - exists (n, mkPi uc true false). split; [|reflexivity].
+        apply -> in_rev. apply in_flat_map. exists (CUnique un uc). split; [exact Hink|].
+        cbn [idx_cat]. left. unfold n. cbn [dropped_name]. now rewrite Hname. }
+    rewrite Hget. cbn [pi_con].
+    destruct (fk_needing_index (catalog_of s) (table_cat t) (mkPi uc true false)); [discriminate|].
+    rewrite Hc, Hcat, (Hcon_same eq_refl), !pt_name_table_cat. rewrite Hname. reflexivity.
   - (* ForeignKey: ALTER TABLE .. DROP CONSTRAINT fk_name *)
     eexists. split; [reflexivity|].
     rewrite (step_schema_ok s _ s') by exact Hup.
@@ -613,11 +715,12 @@ Qed.
 (* ---------- AddColumn, plain path: no enum type, no back-fill sequence, no inline constraint to promote ---------- *)
 
 
-Lemma enums_of_cols_snoc_plain tn col : is_enum_type (c_type col) = false -> forall cols seen,
+Lemma enums_of_cols_snoc_plain tn col : is_string_enum (c_type col) = false -> forall cols seen,
   enums_of_cols tn (cols ++ [col]) seen = enums_of_cols tn cols seen.
 Proof.
   intro Hne. induction cols as [|c r IH]; intro seen; cbn [app enums_of_cols].
-  - destruct (c_type col); try reflexivity. discriminate.
+  - destruct (c_type col) as [st|vl|np ns|cl|cu|en ev]; try reflexivity.
+    unfold is_string_enum in Hne. apply negb_false_iff in Hne. now rewrite Hne.
   - destruct (c_type c); try apply IH.
     destruct (ev_is_integer values || mem_str name seen)%bool; [apply IH|]. f_equal. apply IH.
 Qed.
@@ -625,12 +728,12 @@ Qed.
 Lemma sim_pg_add_column s tn col fw :
   hyp_add_column s tn col fw = true -> step_sim s (AddColumn tn col fw).
 Proof.
-  unfold hyp_add_column. intro H. apply andb_prop in H. destruct H as [Hnd H].
+  unfold hyp_add_column, hyp_add_column_gen. intro H. apply andb_prop in H. destruct H as [Hnd H].
   destruct (find (fun x => String.eqb (t_name x) tn) s) as [t|] eqn:Hf; [|discriminate].
   cbv zeta in H.
   repeat (apply andb_prop in H; destruct H as [H ?]).
   rename H into Hnew, H0 into Hpk, H1 into Hres, H2 into Hnorm, H3 into Hbf, H4 into Hne.
-  apply negb_true_iff in Hnew, Hne, Hbf.
+  apply negb_true_iff in Hnew, Hne. apply Bool.eqb_prop in Hbf.
   pose proof (find_name _ _ _ Hf) as Hname.
   set (t' := mkTable (t_name t) (t_description t) (t_columns t ++ [col]) (t_constraints t)) in *.
   destruct (normalize t') as [nt|] eqn:En; [|discriminate].
@@ -647,7 +750,8 @@ Proof.
   destruct (update_table_spec tn _ s t t' Hnd Hf Hft eq_refl Hen) as (s' & Hup & Hc & _).
   exists [SAlterTable tn [AAddColumn (sea_coldef tn col)]]. split.
   - cbn [gen]. unfold gen_add_column. fold (needs_backfill col fw). rewrite Hbf.
-    unfold create_enum_type. destruct (c_type col); try reflexivity. discriminate.
+    unfold create_enum_type. destruct (c_type col) as [st|vl|np ns|cl|cu|en ev]; try reflexivity.
+    unfold is_string_enum in Hne. apply negb_false_iff in Hne. now rewrite Hne.
   - rewrite (step_schema_ok s _ s') by exact Hup.
     cbn [exec_all exec]. rewrite find_table_catalog_of, Hf. cbn [option_map exec_alter_ops].
     unfold exec_alter_op. rewrite find_table_catalog_of, Hf. cbn [option_map].
@@ -835,4 +939,113 @@ Proof.
         try (destruct Hk; fail);
         destruct Hk as [E0|[]]; injection E0 as <- <-; cbn [pi_cols];
         apply andb_prop in Havoid; destruct Havoid as [A _]; now apply negb_true_iff in A.
+Qed.
+
+(* ---------- RemoveConstraint of the primary key ---------- *)
+Lemma mem_str_in_iff x l : In x l -> mem_str x l = true.
+Proof. intro H. unfold mem_str. apply existsb_exists. exists x. split; [exact H|apply String.eqb_refl]. Qed.
+Lemma find_pk_filter' ks k : filter is_pk ks = [k] -> find is_pk ks = Some k.
+Proof.
+  induction ks as [|x r IH]; intro H; [discriminate|]. cbn [filter find] in *.
+  destruct (is_pk x); [now injection H as -> _|now apply IH].
+Qed.
+Lemma first_pk_only_single : forall ks k, filter is_pk ks = [k] -> first_pk_only false ks = ks.
+Proof.
+  induction ks as [|x r IH]; intros k H; [reflexivity|]. cbn [filter] in H.
+  destruct x; cbn [is_pk first_pk_only] in *; try (f_equal; now apply (IH k)).
+  f_equal. injection H as _ H. now apply first_pk_only_nopk.
+Qed.
+Lemma filter_pk_removed : forall ks k, filter is_pk ks = [k] ->
+  filter is_pk (filter (fun c => negb (constraint_eqb c k)) ks) = [].
+Proof.
+  induction ks as [|x r IH]; intros k H; [reflexivity|]. cbn [filter] in *.
+  destruct (is_pk x) eqn:Ex.
+  - injection H as -> Hr. unfold constraint_eqb at 1, dec_b. destruct (constraint_eq_dec k k); [|contradiction].
+    cbn [negb]. clear -Hr. induction r as [|y r IH]; [reflexivity|]. cbn [filter] in *.
+    destruct (is_pk y) eqn:Ey; [discriminate|]. destruct (negb (constraint_eqb y k)); cbn [filter]; rewrite ?Ey; now apply IH.
+  - destruct (negb (constraint_eqb x k)); cbn [filter]; rewrite ?Ex; now apply (IH k).
+Qed.
+
+Lemma sim_pg_remove_pk s tn k : hyp_remove_pk s tn k = true -> step_sim s (RemoveConstraint tn k).
+Proof.
+  unfold hyp_remove_pk. intro H. apply andb_prop in H. destruct H as [Hnd H].
+  destruct (find (fun x => String.eqb (t_name x) tn) s) as [t|] eqn:Hf; [|discriminate].
+  destruct k as [a cols| | | |]; try discriminate.
+  repeat (apply andb_prop in H; destruct H as [H ?]).
+  rename H into Ha, H0 into Hneed, H1 into Hnn, H2 into Hinj, H3 into Hsingle.
+  apply negb_true_iff in Ha. subst a.
+  destruct (filter is_pk (t_constraints t)) as [|k' [|]] eqn:Efp; try discriminate.
+  apply constraint_eqb_true in Hsingle. subst k'.
+  pose proof (find_name _ _ _ Hf) as Hname.
+  set (k := CPrimaryKey false cols) in *.
+  set (n := tn +++ "_pkey").
+  set (keep := fun c => negb (constraint_eqb c k)).
+  set (t' := mkTable (t_name t) (t_description t) (clear_inline tn k (t_columns t)) (filter keep (t_constraints t))).
+  assert (Hft : (fun t0 : table_def => @Ok table_def planner_error
+                   (mkTable (t_name t0) (t_description t0) (clear_inline tn k (t_columns t0))
+                            (filter (fun c => negb (constraint_eqb c k)) (t_constraints t0)))) t = Ok t') by reflexivity.
+  assert (Hen : table_enums t' = table_enums t).
+  { unfold table_enums, t'. cbn [t_name t_columns]. apply enums_of_cols_ext, map_core_types, clear_inline_core. }
+  destruct (update_table_spec tn _ s t t' Hnd Hf Hft eq_refl Hen) as (s' & Hup & Hc & _).
+  assert (Hink : In k (t_constraints t)).
+  { assert (Hin : In k (filter is_pk (t_constraints t))) by (rewrite Efp; now left). now apply filter_In in Hin. }
+  assert (Hkey : forall x, In x (t_constraints t) -> forall nm, In nm (names_of tn x) -> negb (String.eqb nm n) = keep x).
+  { intros x Hx nm Hnm. unfold keep. rewrite forallb_forall in Hinj. specialize (Hinj x Hx).
+    destruct (constraint_eqb x k) eqn:E; cbn [negb orb] in *.
+    - apply constraint_eqb_true in E. subst x. apply negb_false_iff, String.eqb_eq.
+      unfold names_of, k in Hnm. cbn [con_cat idx_cat map app fst] in Hnm.
+      destruct Hnm as [<-|[<-|[]]]; reflexivity.
+    - apply negb_true_iff in Hinj. apply negb_true_iff, String.eqb_neq. intros ->.
+      assert (Hm : mem_str n (names_of tn x) = true) by now apply mem_str_in_iff.
+      unfold n in Hm. congruence. }
+  assert (Hfpo : first_pk_only false (t_constraints t) = t_constraints t) by (eapply first_pk_only_single; exact Efp).
+  assert (Hfpo' : first_pk_only false (filter keep (t_constraints t)) = filter keep (t_constraints t)).
+  { unfold keep. apply first_pk_only_nopk. exact (filter_pk_removed _ k Efp). }
+  assert (Hpk' : pk_of t' = None).
+  { unfold pk_of, t', keep. cbn [t_constraints]. now rewrite (find_pk_nil _ (filter_pk_removed _ k Efp)). }
+  assert (Hpk : pk_of t = Some (false, cols)).
+  { unfold pk_of. now rewrite (find_pk_filter' _ _ Efp). }
+  assert (Hcat : table_cat t' = mkPt (t_name t) (map (col_cat t) (t_columns t))
+                                     (bt_remove n (pt_cons (table_cat t))) (bt_remove n (pt_idx (table_cat t)))).
+  { unfold table_cat.
+    change (t_name t') with (t_name t). change (t_columns t') with (clear_inline tn k (t_columns t)).
+    change (t_constraints t') with (filter keep (t_constraints t)).
+    cbn [pt_cons pt_idx]. rewrite Hfpo, Hfpo'. f_equal.
+    - (* columns: NOT NULL stays because the key columns are declared NOT NULL *)
+      transitivity (map (col_cat t') (t_columns t)).
+      + apply map_core_col_cat, clear_inline_core.
+      + apply map_ext_in. intros x Hx. unfold col_cat. rewrite Hpk', Hpk.
+        rewrite forallb_forall in Hnn. specialize (Hnn x Hx).
+        destruct (mem_str (c_name x) cols); cbn [negb orb] in *; [now rewrite Hnn|now rewrite orb_false_r].
+    - rewrite bt_remove_of_list. f_equal. apply flat_map_filter_key. intros x Hx kv Hkv. apply (Hkey x Hx).
+      unfold names_of. apply in_or_app. left. rewrite <- Hname. now apply in_map.
+    - rewrite bt_remove_of_list. f_equal. apply flat_map_filter_key. intros x Hx kv Hkv. apply (Hkey x Hx).
+      unfold names_of. apply in_or_app. right. rewrite <- Hname. now apply in_map. }
+  eexists. split; [reflexivity|].
+  rewrite (step_schema_ok s _ s') by exact Hup.
+  unfold k at 1. cbn [gen_remove_constraint exec_all exec]. rewrite find_table_catalog_of, Hf. cbn [option_map exec_alter_ops].
+  unfold exec_alter_op. rewrite find_table_catalog_of, Hf. cbn [option_map]. fold n.
+  assert (Hgetc : bt_get n (pt_cons (table_cat t)) = Some (KPk cols)).
+  { unfold table_cat. cbn [pt_cons]. rewrite Hfpo, bt_get_of_list. apply bt_get_all_same.
+    - intros kv Hkv Hfst. apply in_rev in Hkv. apply in_flat_map in Hkv. destruct Hkv as (x & Hx & Hkv).
+      assert (keep x = false).
+      { rewrite <- (Hkey x Hx (fst kv)); [rewrite Hfst, String.eqb_refl; reflexivity|].
+        unfold names_of. apply in_or_app. left. rewrite <- Hname. now apply in_map. }
+      unfold keep in H. apply negb_false_iff, constraint_eqb_true in H. subst x.
+      cbn [con_cat k] in Hkv. destruct Hkv as [<-|[]]. reflexivity.
+    - exists (n, KPk cols). split; [|reflexivity].
+      apply -> in_rev. apply in_flat_map. exists k. split; [exact Hink|]. cbn [con_cat k]. left. unfold n. now rewrite Hname. }
+  assert (Hgeti : bt_get n (pt_idx (table_cat t)) = Some (mkPi cols true true)).
+  { unfold table_cat. cbn [pt_idx]. rewrite Hfpo, bt_get_of_list. apply bt_get_all_same.
+    - intros kv Hkv Hfst. apply in_rev in Hkv. apply in_flat_map in Hkv. destruct Hkv as (x & Hx & Hkv).
+      assert (keep x = false).
+      { rewrite <- (Hkey x Hx (fst kv)); [rewrite Hfst, String.eqb_refl; reflexivity|].
+        unfold names_of. apply in_or_app. right. rewrite <- Hname. now apply in_map. }
+      unfold keep in H. apply negb_false_iff, constraint_eqb_true in H. subst x.
+      cbn [idx_cat k] in Hkv. destruct Hkv as [<-|[]]. reflexivity.
+    - exists (n, mkPi cols true true). split; [|reflexivity].
+      apply -> in_rev. apply in_flat_map. exists k. split; [exact Hink|]. cbn [idx_cat k]. left. unfold n. now rewrite Hname. }
+  rewrite Hgetc. cbv iota. rewrite Hgeti.
+  destruct (fk_needing_index (catalog_of s) (table_cat t) (mkPi cols true true)); [discriminate|].
+  rewrite Hc, Hcat, !pt_name_table_cat. reflexivity.
 Qed.
